@@ -342,7 +342,7 @@ func (e *Engine) record(n *Node, kind string, idx int, arg any, ctx z.Ctx, wantA
 	if rec == nil {
 		return nil
 	}
-	c := Call{Node: n.ID, Kind: kind, Idx: idx, ArgT: fmt.Sprintf("%T", arg), Arg: Canon(arg), Addr: -1}
+	c := Call{Node: n.ID, Kind: kind, Idx: idx, ArgT: fmt.Sprintf("%T", arg), Arg: Canon(derefAll(arg)), Addr: -1}
 	if wantAddr {
 		c.Addr = 0
 		rv := reflect.ValueOf(arg)
